@@ -1,4 +1,5 @@
 #!/bin/bash
+export VERIF_EVIDENCE_DIR=/tmp/verif_scratch_evidence VERIF_REPLAY_DIR=/tmp/verif_scratch_replays
 # usage: tools_mutate.sh <PROP> <file-relative-to-repo> <sed-expression>
 # applies one sed edit to a scratch copy of the tree and runs the check on it
 set -e
